@@ -158,6 +158,8 @@ class FakeSock:
     def getpeername(self):
         if self.closed:
             raise OSError(errno.EBADF, "bad file descriptor")
+        if self.reset:
+            raise OSError(errno.ENOTCONN, "transport endpoint is not connected")     # as a real socket after a RST
         return self.raddr
 
     def fileno(self):
